@@ -196,6 +196,56 @@ def callback_sweep(chk, tier):
     chk.part("callbacks", programs=len(ran), violation_reached_host=tripped, traces_accepted=n)
 
 
+HANDLER_ALLOC_PROGRAMS = [
+    ("""let big = "x" * 4000;
+let e = error(big);
+let g = get_error(e);
+let h = if_error(e, "y" * 3000);
+let i = is_error(e);
+let j = get_error(if_error(e, error("w" * 2000)));
+let o = some(big).or(some("v" * 1000));
+fn main()->int { let k = get_error(error("z" * 2500)); k.value().len() + g.value().len() + h.len() + j.value().len() }
+"""),
+    ("""fn fail(n: int)->str { error("f" * n) }
+let a = if_error(fail(3000), "m", "n" * 2000);
+let b = [1, 2, 3].map((x: int) -> {get_error(fail(x * 1000)).value().len()}).to_array();
+let c = is_error(fail(1500)) && is_error(get_error(fail(1800)).value() + "!");
+fn main()->int { let d = get_error(fail(2200)).map((t: str) -> {t + t}); d.value().len() + b.sum() }
+"""),
+]
+
+
+def handler_size_sweep(chk, tier):
+    """the size limit tripping at EVERY allocation of programs that allocate inside the error handlers (get_error copies
+    the message, if_error builds its alternative, ...): the host must receive AllocationLimitReached each time"""
+    from checks import c09
+    BIG = c09.BIG
+    jobs = []
+    for pi, src in enumerate(HANDLER_ALLOC_PROGRAMS):
+        p = {"name": "handlers%d" % pi, "src": src, "limits": {}, "perms": {}}
+        base = vf.run_jobs([c09.mkjob(p, BIG, "hb%d" % pi)], "c06-hbase", timeout_ms=120000)["hb%d" % pi]
+        if vf.job_outcome(base) != "ok" or "events" not in base:
+            chk.violation("handler program %d under no size limit: %s" % (pi, vf.job_outcome(base)), {"kind": "trace", "job": c09.mkjob(p, BIG, "hb")})
+            continue
+        totals = sorted({e["total"] for e in base["events"] if e["ev"] == "Alloc"})
+        user = [t for t in totals if t > totals[len(totals) // 2]] if len(totals) > 40 else totals
+        pts = user[-(30 if tier == "quick" else 300):]
+        for T in pts:
+            jobs.append(c09.mkjob(p, T - 1, "h%d@%d" % (pi, T - 1)))
+    res = vf.run_jobs(jobs, "c06-hsweep", timeout_ms=120000)
+    chk.count(len(jobs))
+    sample = jobs if tier == "thorough" else jobs[::6]
+    vf.validate_job_traces(chk, sample, res, "c06-hsweep", "size limit inside an error handler")
+    for j in jobs:
+        r = res[j["id"]]
+        oc = vf.job_outcome(r)
+        chk.nontrivial(j["id"])
+        if "events" in r and c09.first_refusal(r["events"], j["limits"]["size"]) is not None and not oc.endswith("AllocationLimitReached"):
+            chk.violation("an allocation inside an error handler was refused under L=%d but the host got %s" % (j["limits"]["size"], oc),
+                          {"kind": "trace", "job": j, "reason": "refusal not reported"}, finding_key="handler-size")
+    chk.part("handler_size_sweep", runs=len(jobs))
+
+
 def run(chk, tier, seed):
     rnd = random.Random(seed)
     # (a) error-heavy programs
@@ -275,6 +325,7 @@ def run(chk, tier, seed):
                        nontrivial=lambda p, c: c["viol"] != "none" or any(x.get("viol", "none") != "none" for x in c["runs"]))
     # (d) a violation raised inside a callback of any higher-order builtin reaches the host
     callback_sweep(chk, tier)
+    handler_size_sweep(chk, tier)
     chk.cov["rule"] = ("(a) random core programs with error(\"E<k>\") injected at ~25% of expression positions; "
                        "(b) every static root-scope signature with canonical inhabitants and an error at each argument "
                        "position and at pairs; (c) handler templates and random programs under every value of each limit. "
